@@ -200,6 +200,12 @@ def poly_program(rng):
         # two helpers (and top-level code) use the SAME local name with different types, first assigned in if/else arms in one
         # and inside a loop body in the other: every scope has its own declaration
         nm = rng.choice(["tloc", "acc", "val"])
+        if rng.random() < 0.6:
+            # ... also after the top level itself has hoisted a name out of an if/else (the hoisting tables then exist at the root)
+            L += ["if iv > 100:", "    top0 = 1", "else:", "    top0 = 2", "mon.write(top0)"]
+        strs = rng.random() < 0.5
+        if strs:
+            L += [f"def sarms_{nm}(v):", "    if v > 100:", f"        {nm} = \"hi\"", "    else:", f"        {nm} = \"lo\"", f"    return {nm}", "", f"qs = sarms_{nm}(iv)", "mon.write(qs)"]
         L += [f"def arms_{nm}(v):", "    if v > 100:", f"        {nm} = 1", "    else:", f"        {nm} = 2", f"    return {nm}", "",
               f"def loop_{nm}(n):", "    for k in range(n):", f"        {nm} = k * 0.5", f"    return {nm}", "",
               f"def wloop_{nm}(n):", "    w = n", "    while w > 0:", "        w -= 1", f"        {nm} = \"s\" + str(w)", f"    return {nm}", ""]
